@@ -61,6 +61,8 @@ def run(ctx):
     ctx.counted('lists mixing absolute and relative patterns', nm, nm // 2, [{'patterns': ['<root>/other/*', 'sub/*']}])
     nfe = globcommon.frontends_equiv(ctx, rng)
     ctx.counted('dir_fd / iglob / pathlib / cloned matchers vs glob', nfe, nfe // 2, [{'pattern': 'vis/*'}])
+    nug_ = globcommon.unclosed_group_paths(ctx)
+    ctx.counted('unclosed groups in path patterns: walker vs matcher', nug_, nug_ // 2, [{'pattern': '@(a/[b'}])
     nsp = globcommon.spelling_equiv(ctx, rng, 3 if ctx.quick else 12, 30 if ctx.quick else 120)
     ctx.counted('separator runs and a dangling backslash in the pattern do not change the walk', nsp, nsp // 2, [{'pattern': 'sub/\\/**//f*\\', 'same_as': 'sub/**/f*'}])
     return ctx.finish(RULE)
